@@ -48,6 +48,9 @@ func cloneScn(s PScn) PScn {
 	b, _ := json.Marshal(s)
 	var n PScn
 	json.Unmarshal(b, &n)
+	if n.Reacts == nil {
+		n.Reacts = map[string]string{}
+	}
 	return n
 }
 
